@@ -235,6 +235,84 @@ def is_field(x):
     return isinstance(x, (Poly, Sup))
 
 
+class Term:
+    """uninterpreted symbolic scalar (integer / bool / opaque value): op applied to args"""
+    __slots__ = ("op", "args")
+
+    def __init__(self, op, *args):
+        self.op = op
+        self.args = args
+
+    def __repr__(self):
+        if not self.args:
+            return str(self.op)
+        return "%s(%s)" % (self.op, ", ".join(repr(a) for a in self.args))
+
+    def __eq__(self, o):
+        return isinstance(o, Term) and self.op == o.op and self.args == o.args
+
+    def __hash__(self):
+        return hash((self.op, self.args))
+
+    def leaves(self):
+        out = set()
+        for a in self.args:
+            if isinstance(a, Term):
+                out |= a.leaves()
+            elif isinstance(a, (Poly, Sup)):
+                out |= a.vars()
+        if not self.args:
+            out.add(self.op)
+        return out
+
+
+def is_sym(x):
+    return isinstance(x, (Term, Poly, Sup)) and not (isinstance(x, Poly) and x.const_value() is not None)
+
+
+class ForkState:
+    """decision replay for path enumeration: every branch on a symbolic value is a decision point"""
+
+    def __init__(self):
+        self.decisions = []
+        self.trace = []
+
+    def choose(self, site, n, cond):
+        i = len(self.trace)
+        c = self.decisions[i] if i < len(self.decisions) else 0
+        self.trace.append((site, n, cond, c))
+        return c
+
+    def next_decisions(self):
+        t = self.trace
+        i = len(t) - 1
+        while i >= 0:
+            site, n, cond, c = t[i]
+            if c + 1 < n:
+                return [x[3] for x in t[:i]] + [c + 1]
+            i -= 1
+        return None
+
+
+def enumerate_paths(make_interp, run, max_paths=512):
+    """run(interp) is executed once per syntactic path; yields (interp, outcome, exception)"""
+    decisions = []
+    n = 0
+    while decisions is not None and n < max_paths:
+        I = make_interp()
+        I.fork = ForkState()
+        I.fork.decisions = decisions
+        try:
+            out = run(I)
+            yield I, out, None
+        except (PanicReached, Unanalysable) as e:
+            yield I, None, e
+        decisions = I.fork.next_decisions()
+        n += 1
+    if decisions is not None:
+        raise Unanalysable("more than %d paths" % max_paths)
+
+
 # ---------------------------------------------------------------------------------------------
 # memory model
 
@@ -410,10 +488,15 @@ class EnumIt(It):
 
 class RevIt(It):
     def __init__(self, inner):
+        if not hasattr(inner, "next_back"):
+            inner = ListIt(drain(inner))
         self.inner = inner
 
     def next(self):
         return self.inner.next_back()
+
+    def next_back(self):
+        return self.inner.next()
 
 
 class ZipIt(It):
@@ -428,6 +511,35 @@ class ZipIt(It):
         if y is StopIteration:
             return y
         return Agg([x, y], "tuple")
+
+
+def drain(it):
+    out = []
+    while True:
+        v = it.next()
+        if v is StopIteration:
+            return out
+        out.append(v)
+
+
+class FlatMapIt(It):
+    def __init__(self, inner, clo, interp):
+        self.inner, self.clo, self.interp = inner, clo, interp
+        self.buf = None
+
+    def _fill(self):
+        if self.buf is None:
+            self.buf = []
+            for v in drain(self.inner):
+                self.buf.extend(drain(as_iter(self.interp, self.interp.call_closure(self.clo, [v]))))
+
+    def next(self):
+        self._fill()
+        return self.buf.pop(0) if self.buf else StopIteration
+
+    def next_back(self):
+        self._fill()
+        return self.buf.pop() if self.buf else StopIteration
 
 
 class MapIt(It):
@@ -458,6 +570,11 @@ class Interp:
         self.models = {}
         self.trace_unknown = []
         self.field_hook = field_hook
+        self.fork = None
+        self.path = []          # guards taken: (condition term, value | ("not", values), location)
+        self.effects = []       # recorded effects of modelled calls
+        self.havoc = False      # unknown external calls return fresh terms instead of failing
+        self.overrides = []     # (regex, model) checked before anything else
         install_models(self)
 
     # ---- values ---------------------------------------------------------------------------
@@ -638,7 +755,18 @@ class Interp:
                 if isinstance(v, Poly) and v.const_value() is not None:
                     v = v.const_value()
                 if not isinstance(v, int):
-                    raise Unanalysable("%s: branch on non-constant value %r" % (fn.loc(t["ln"]), v))
+                    if self.fork is None or not isinstance(v, (Term, Poly)):
+                        raise Unanalysable("%s: branch on non-constant value %r" % (fn.loc(t["ln"]), v))
+                    arms = t["arms"]
+                    c = self.fork.choose((fn.id, bi), len(arms) + 1, v)
+                    if c < len(arms):
+                        self.path.append((v, int(arms[c][0]), fn.loc(t["ln"])))
+                        nxt = arms[c][1]
+                    else:
+                        self.path.append((v, ("not", [int(a[0]) for a in arms]), fn.loc(t["ln"])))
+                        nxt = t["else"]
+                    bi = nxt
+                    continue
                 nxt = t["else"]
                 for val, tgt in t["arms"]:
                     if int(val) == v:
@@ -664,6 +792,8 @@ class Interp:
                 if isinstance(c, (bool, int)):
                     if bool(c) != t["exp"]:
                         raise PanicReached("%s: assertion %s fails" % (fn.loc(t["ln"]), t["msg"]))
+                elif isinstance(c, Term):
+                    self.effects.append(("may_panic", t["msg"], fn.loc(t["ln"])))
                 bi = t["to"]
             elif k == "drop":
                 bi = t["to"]
@@ -689,7 +819,9 @@ class Interp:
             v = self.binop(r["op"], self.operand(fr, r["a"]), self.operand(fr, r["b"]), fn, s)
         elif k == "un":
             x = self.operand(fr, r["o"])
-            if r["op"] == "Not":
+            if isinstance(x, Term):
+                v = Term(r["op"], x)
+            elif r["op"] == "Not":
                 v = (not x) if isinstance(x, bool) else (~x)
             elif r["op"] == "Neg":
                 v = -x
@@ -753,6 +885,8 @@ class Interp:
                 if bits:
                     return x & ((1 << bits) - 1)
                 return x
+            if isinstance(x, Term):
+                return Term("as_" + ty, x)
             raise Unanalysable("cast of %r" % (x,))
         if ck in ("PointerCoercion",):
             if isinstance(x, Ptr):
@@ -767,6 +901,11 @@ class Interp:
     def binop(self, op, a, b, fn=None, s=None):
         if isinstance(a, bool) and op in ("&", "|", "^", "==", "!="):
             pass
+        if isinstance(a, Term) or isinstance(b, Term):
+            if isinstance(a, (int, bool, Term)) and isinstance(b, (int, bool, Term)):
+                if op.endswith("?"):
+                    return Agg([Term(op.rstrip("?"), a, b), False], "tuple")
+                return Term(op, a, b)
         if is_field(a) or is_field(b):
             raise Unanalysable("primitive binop on field value")
         if isinstance(a, (Ptr, SlicePtr)) or isinstance(b, (Ptr, SlicePtr)):
@@ -816,7 +955,13 @@ class Interp:
     def call_fn(self, f, argv, t, caller=None):
         if not isinstance(f, FnRef):
             raise Unanalysable("indirect call through %r" % (f,))
-        m = self.models.get(f.id) or self.models.get(f.decl)
+        m = None
+        for rx, mm in self.overrides:
+            if rx.search(f.id):
+                m = mm
+                break
+        if m is None:
+            m = self.models.get(f.id) or self.models.get(f.decl)
         if m is None:
             for suffix, mm in self.suffix_models:
                 if f.id.endswith(suffix) or f.decl.endswith(suffix):
@@ -830,6 +975,9 @@ class Interp:
         if f.decl.endswith("FnMut::call_mut") or f.decl.endswith("FnOnce::call_once") or f.decl.endswith("Fn::call"):
             args = argv[1].items if isinstance(argv[1], Agg) else [argv[1]]
             return self.call_closure(argv[0], args)
+        if self.havoc:
+            self.effects.append(("unmodelled", f.id))
+            return Term("call:" + f.id, *[a for a in argv if isinstance(a, (int, Term, Poly))])
         raise Unanalysable("no model for external/unresolved function %s (decl %s)" % (f.id, f.decl))
 
 
@@ -1005,8 +1153,13 @@ def install_models(I):
               "core::array::[T;N]@Index::index", "core::array::[T;N]@IndexMut::index_mut",
               "alloc::vec::Vec@Index::index", "alloc::vec::Vec@IndexMut::index_mut"):
         M[n] = index_model
-    M["core::slice::[T]::len"] = lambda I, a, f: slice_of(I, a[0]).len
-    M["alloc::vec::Vec::len"] = lambda I, a, f: slice_of(I, a[0]).len
+    def len_model(I, a, f):
+        x = deref(a[0])
+        if isinstance(x, Opaque):
+            return Term("len", x.name)
+        return slice_of(I, a[0]).len
+    M["core::slice::[T]::len"] = len_model
+    M["alloc::vec::Vec::len"] = len_model
     M["core::slice::[T]::iter"] = lambda I, a, f: as_iter(I, slice_of(I, a[0]))
     M["core::slice::[T]::iter_mut"] = lambda I, a, f: as_iter(I, slice_of(I, a[0]))
 
@@ -1032,6 +1185,43 @@ def install_models(I):
             d.c[d.start + dest + i] = v
         return Agg([], "tuple")
     M["core::slice::[T]::copy_within"] = copy_within
+
+    def vec_deref(I, a, f):
+        return slice_of(I, a[0])
+    M["alloc::vec::Vec@Deref::deref"] = vec_deref
+    M["alloc::vec::Vec@DerefMut::deref_mut"] = vec_deref
+    S.append(("fmt::rt::Argument::new_display", lambda I, a, f: Opaque("fmtarg")))
+    S.append(("fmt::rt::Argument::new_debug", lambda I, a, f: Opaque("fmtarg")))
+    S.append(("fmt::Arguments::from_str_nonconst", lambda I, a, f: Opaque("fmt")))
+
+    def last(I, a, f):
+        d = slice_of(I, a[0])
+        return some(d.at(d.len - 1)) if d.len else none()
+    M["core::slice::[T]::last"] = last
+    M["core::slice::[T]::last_mut"] = last
+    M["core::slice::[T]::first"] = lambda I, a, f: (some(slice_of(I, a[0]).at(0)) if slice_of(I, a[0]).len else none())
+
+    def opt_unwrap(I, a, f):
+        o = a[0]
+        if isinstance(o, Agg) and o.variant in ("Some", "Ok"):
+            return o.items[0]
+        raise PanicReached("unwrap/expect on %r" % (o,))
+    for n in ("core::option::Option::expect", "core::option::Option::unwrap", "core::result::Result::unwrap", "core::result::Result::expect"):
+        M[n] = opt_unwrap
+    M["core::cmp::Ord::min"] = lambda I, a, f: min(a[0], a[1]) if isinstance(a[0], int) and isinstance(a[1], int) else Term("min", a[0], a[1])
+    M["core::cmp::Ord::max"] = lambda I, a, f: max(a[0], a[1]) if isinstance(a[0], int) and isinstance(a[1], int) else Term("max", a[0], a[1])
+    M["core::cmp::min"] = M["core::cmp::Ord::min"]
+    M["core::cmp::max"] = M["core::cmp::Ord::max"]
+    S.append(("@Ord::min", M["core::cmp::Ord::min"]))
+    S.append(("@Ord::max", M["core::cmp::Ord::max"]))
+
+    def reverse(I, a, f):
+        d = slice_of(I, a[0])
+        vals = d.values()[::-1]
+        for i, v in enumerate(vals):
+            d.c[d.start + i] = v
+        return Agg([], "tuple")
+    M["core::slice::[T]::reverse"] = reverse
 
     def to_vec(I, a, f):
         return Agg([clone_val(v) for v in slice_of(I, a[0]).values()], "vec")
@@ -1070,6 +1260,7 @@ def install_models(I):
     M["core::iter::traits::iterator::Iterator::rev"] = lambda I, a, f: RevIt(as_iter(I, a[0]))
     M["core::iter::traits::iterator::Iterator::zip"] = lambda I, a, f: ZipIt(as_iter(I, a[0]), as_iter(I, a[1]))
     M["core::iter::traits::iterator::Iterator::map"] = lambda I, a, f: MapIt(as_iter(I, a[0]), a[1], I)
+    M["core::iter::traits::iterator::Iterator::flat_map"] = lambda I, a, f: FlatMapIt(as_iter(I, a[0]), a[1], I)
     M["core::iter::traits::iterator::Iterator::copied"] = lambda I, a, f: MapIt(as_iter(I, a[0]), FnRef({"fn": "@deref", "decl": "@deref", "res": "direct"}), I)
     M["@deref"] = lambda I, a, f: clone_val(deref(a[0]))
 
@@ -1116,6 +1307,41 @@ def install_models(I):
     M["winter_air::air::transition::degree::TransitionConstraintDegree::new"] = lambda I, a, f: Agg([a[0], []], "adt", "TransitionConstraintDegree", "new")
     M["winter_air::air::transition::degree::TransitionConstraintDegree::with_cycles"] = \
         lambda I, a, f: Agg([a[0], [x for x in deref(a[1]).items]], "adt", "TransitionConstraintDegree", "with_cycles")
+
+    def try_branch(I, a, f):
+        r = a[0]
+        if isinstance(r, Agg) and r.variant in ("Ok", "Some"):
+            return Agg([r.items[0]], "adt", "core::ops::control_flow::ControlFlow", "Continue")
+        if isinstance(r, Agg) and r.variant == "Err":
+            return Agg([Agg([r.items[0]], "adt", "core::result::Result", "Err")], "adt", "core::ops::control_flow::ControlFlow", "Break")
+        if isinstance(r, Agg) and r.variant == "None":
+            return Agg([Agg([], "adt", "core::option::Option", "None")], "adt", "core::ops::control_flow::ControlFlow", "Break")
+        raise Unanalysable("Try::branch on %r" % (r,))
+    S.append(("Result@Try::branch", try_branch))
+    S.append(("Option@Try::branch", try_branch))
+    S.append(("Result@FromResidual::from_residual", lambda I, a, f: a[0]))
+    S.append(("Option@FromResidual::from_residual", lambda I, a, f: a[0]))
+
+    def peq(neg):
+        def m(I, a, f):
+            x, y = deref(a[0]), deref(a[1])
+            if isinstance(x, Poly) and isinstance(y, Poly):
+                d = x - y
+                if d.const_value() is not None:
+                    r = d.const_value() == 0
+                    return (not r) if neg else r
+                return Term("ne" if neg else "eq", x, y)
+            if isinstance(x, (int, bool)) and isinstance(y, (int, bool)):
+                return (x != y) if neg else (x == y)
+            if isinstance(x, Agg) and isinstance(y, Agg) and not x.items and not y.items:
+                r = (x.adt, x.variant) == (y.adt, y.variant)
+                return (not r) if neg else r
+            return Term("ne" if neg else "eq", repr(x), repr(y))
+        return m
+    S.append(("@PartialEq::eq", peq(False)))
+    S.append(("@PartialEq::ne", peq(True)))
+    M["core::cmp::PartialEq::eq"] = peq(False)
+    M["core::cmp::PartialEq::ne"] = peq(True)
 
     def panic(I, a, f):
         raise PanicReached("panic call %s" % f.id)
